@@ -256,3 +256,13 @@ package layer
 //@   ensures result != nil && newInodes == old(newInodes) + 1 && newInodeOps == typeof(node)
 //@ func interface fs/reader.Reader.Metadata
 //@   ensures result != nil && payload(result) == mdRef(payload(self))
+
+// ---- C13: the body the background fetch hands to the task manager does all its work itself ----
+// The manager's guarantees (no body still running when its invocation returns, at most the configured number of bodies,
+// a cancelled body has stopped before it is retried) are about the function it is given; they carry over to the blob
+// read only if that read happens inside the body, not in a goroutine the body leaves behind: the body starts none.
+//@ func (l *layer) backgroundFetch$1$1
+//@   props C13
+//@   taggedonly
+//@   requires l != nil && l.blob != nil && l.blob.Blob != nil
+//@   ensures[C13] gocount() == 0
